@@ -71,6 +71,13 @@ fn run_program(prog: &str) -> Vec<String> {
                 add_thread_local_log_tag(leak(String::from_utf8(unhex(n)).unwrap()), String::from_utf8(unhex(v)).unwrap());
             }
             "c" => clear_thread_local_log_tags(),
+            // another thread panics while it holds the handle of the global logger (the mutex is poisoned from then on)
+            "z" => {
+                let _ = std::thread::spawn(|| {
+                    let _handle = servlin::log::internal::global_logger();
+                    panic!("scripted panic while holding the global logger handle");
+                }).join();
+            }
             "l" => {
                 // l<level>:<msg hex>:<tags>
                 let p: Vec<&str> = rest.splitn(3, ':').collect();
@@ -238,6 +245,7 @@ pub fn run(ctx: &mut Ctx) {
                 if rng.chance(1, 10) {
                     for k in 0..rng.range(10, 30) { ops.push(format!("a{}={}", h(*rng.pick(&names)), h(&format!("T{t}{k}")))); }
                 }
+                if logger == "A" && rng.chance(1, 12) { ops.push("z".to_string()); }
                 for k in 0..len {
                     ops.push(match if logger == "X" { 9 } else { rng.below(10) } {
                         0 | 1 => format!("a{}={}", h(*rng.pick(&names)), h(&format!("v{t}{k}"))),
@@ -267,6 +275,8 @@ pub fn run(ctx: &mut Ctx) {
             case(ctx, &phases.join("|"));
         }
     }
+    // a thread dies while holding the global logger's handle; the installed logger keeps receiving, a later one can be installed
+    if ctx.mine(n + 2) { case(ctx, &format!("A@l{}:{}:,z,l{}:{}:/l{}:{}:|A@l{}:{}:|N@l{}:{}:", "i", h("t0-0"), "e", h("t0-1"), "i", h("t1-0"), "i", h("t0-2"), "i", h("t0-3"))); }
     // the install race, alone and after ordinary phases
     let rounds = if ctx.thorough() { 1200 } else { 280 };
     if ctx.mine(n) { case(ctx, &format!("R@{rounds}")); }
